@@ -220,8 +220,8 @@ GetStep(r, res) ==
       E2 == IF wait THEN [E1 EXCEPT !.waiters = Append(@, r)] ELSE E1
       E3 == IF E2.status = "unknown" THEN [E2 EXCEPT !.status = "fetching", !.waiters = <<>>] ELSE E2
       bad == loads /\ ~(res = "ok" /\ rec # NoRec)
-      o1 == IF bad THEN O!OLoadBad(obs, r) ELSE obs
-      o2 == O!ODecide(o1, r, E3.status, wait, now)
+      o1 == IF bad THEN O!OLoadBad(obs, r) ELSE IF loads THEN O!OLoaded(obs, r) ELSE obs
+      o2 == O!ODecide(o1, r, E3.status, wait, now, E3.resp)
       o3 == IF ~wait /\ E3.status = "hit" /\ AgeAtDecision THEN O!OAge(o2, r, now - E3.createdAt, now) ELSE o2
   IN
   /\ pc[r] = "get.lock" /\ elock[e] = Free
@@ -404,28 +404,49 @@ PurgeStart(p, k, ds) ==
                  pc, rkey, rdisp, rmeth, rent, rst, rresp, rout, rttl, rsend, rver,
                  starts, nver, kills, drops, obs>>
 
-(* Lock the shard, remove from the LRU; without a store: unlock and finish with this dispatcher *)
-PurgeRemove(p) ==
-  LET d == pcur[p]  k == pkey[p]  z == ShardOf[k]  e == ent[d][k]
-      o1 == O!ORemoved(obs, d, k)
-      fence == PurgeFences /\ e # 0 IN
-  /\ ppc[p] = "purge.lock" /\ slock[d][z] = Free
-  /\ fence => elock[e] = Free      \* the fence is set under the entry's lock
+PurgeAdvance(p) ==   \* this dispatcher is done: next one, or finished
+  IF ptodo[p] = <<>>
+  THEN /\ ppc' = [ppc EXCEPT ![p] = "idle"] /\ UNCHANGED <<ptodo, pcur>>
+  ELSE /\ ppc' = [ppc EXCEPT ![p] = "purge.lock"]
+       /\ pcur' = [pcur EXCEPT ![p] = Head(ptodo[p])]
+       /\ ptodo' = [ptodo EXCEPT ![p] = Tail(@)]
+
+(* the removal proper, with the shard lock held by p (or being taken in the same step) *)
+PurgeDoRemove(p, e, held) ==
+  LET d == pcur[p]  k == pkey[p]  z == ShardOf[k]
+      o1 == O!ORemoved(obs, d, k) IN
   /\ lru' = [lru EXCEPT ![d][z] = Remove(@, k)]
   /\ ent' = [ent EXCEPT ![d][k] = 0]
-  /\ est' = IF fence THEN [est EXCEPT ![e].removed = TRUE] ELSE est
   /\ IF HasStore[d]
      THEN /\ slock' = [slock EXCEPT ![d][z] = p]
           /\ ppc' = [ppc EXCEPT ![p] = "purge.delete"]
           /\ obs' = G(o1)
           /\ UNCHANGED <<ptodo, pcur>>
-     ELSE /\ obs' = O!OPurged(o1, d, k)
-          /\ IF ptodo[p] = <<>>
-             THEN /\ ppc' = [ppc EXCEPT ![p] = "idle"] /\ UNCHANGED <<ptodo, pcur>>
-             ELSE /\ ppc' = [ppc EXCEPT ![p] = "purge.lock"]
-                  /\ pcur' = [pcur EXCEPT ![p] = Head(ptodo[p])]
-                  /\ ptodo' = [ptodo EXCEPT ![p] = Tail(@)]
-          /\ UNCHANGED slock
+     ELSE /\ obs' = G(O!OPurged(o1, d, k, TRUE))
+          /\ PurgeAdvance(p)
+          /\ slock' = [slock EXCEPT ![d][z] = Free]
+
+(* Lock the shard; if the key has an entry and purges fence: go and take the entry's lock (keeping the
+   shard); else remove from the LRU; without a store: unlock and finish with this dispatcher *)
+PurgeRemove(p) ==
+  LET d == pcur[p]  k == pkey[p]  z == ShardOf[k]  e == ent[d][k] IN
+  /\ ppc[p] = "purge.lock" /\ slock[d][z] = Free
+  /\ IF PurgeFences /\ e # 0
+     THEN /\ slock' = [slock EXCEPT ![d][z] = p]
+          /\ ppc' = [ppc EXCEPT ![p] = "purge.fence"]
+          /\ UNCHANGED <<lru, ent, est, ptodo, pcur, obs>>
+     ELSE /\ PurgeDoRemove(p, e, FALSE)
+          /\ UNCHANGED est
+  /\ UNCHANGED <<now, ticks, nextEnt, elock, store, pkey,
+                 pc, rkey, rdisp, rmeth, rent, rst, rresp, rout, rttl, rsend, rver,
+                 starts, nver, purges, kills, drops>>
+
+(* markRemoved: Lock the entry (shard still held), set the mark, Unlock; then the removal *)
+PurgeFence(p) ==
+  LET d == pcur[p]  k == pkey[p]  e == ent[d][k] IN
+  /\ ppc[p] = "purge.fence" /\ elock[e] = Free
+  /\ est' = [est EXCEPT ![e].removed = TRUE]
+  /\ PurgeDoRemove(p, e, TRUE)
   /\ UNCHANGED <<now, ticks, nextEnt, elock, store, pkey,
                  pc, rkey, rdisp, rmeth, rent, rst, rresp, rout, rttl, rsend, rver,
                  starts, nver, purges, kills, drops>>
@@ -437,12 +458,8 @@ PurgeDelete(p, ok) ==
   /\ ok \in SaveResults
   /\ store' = IF ok THEN [store EXCEPT ![d][k] = NoRec] ELSE store
   /\ slock' = [slock EXCEPT ![d][z] = Free]
-  /\ obs' = G(O!OPurged(obs, d, k))
-  /\ IF ptodo[p] = <<>>
-     THEN /\ ppc' = [ppc EXCEPT ![p] = "idle"] /\ UNCHANGED <<ptodo, pcur>>
-     ELSE /\ ppc' = [ppc EXCEPT ![p] = "purge.lock"]
-          /\ pcur' = [pcur EXCEPT ![p] = Head(ptodo[p])]
-          /\ ptodo' = [ptodo EXCEPT ![p] = Tail(@)]
+  /\ obs' = G(O!OPurged(obs, d, k, ok))
+  /\ PurgeAdvance(p)
   /\ UNCHANGED <<now, ticks, lru, ent, est, nextEnt, elock, pkey,
                  pc, rkey, rdisp, rmeth, rent, rst, rresp, rout, rttl, rsend, rver,
                  starts, nver, purges, kills, drops>>
@@ -465,7 +482,7 @@ ReqStep(r) ==
 PurgeStep(p) ==
   \/ \E k \in Keys, d \in Disp : PurgeStart(p, k, <<d>>)
   \/ (UnnamedPurge /\ \E k \in Keys : PurgeStart(p, k, SeqOfDisp))
-  \/ PurgeRemove(p)
+  \/ PurgeRemove(p) \/ PurgeFence(p)
   \/ \E ok \in BOOLEAN : PurgeDelete(p, ok)
 
 Env ==
@@ -494,7 +511,7 @@ LiveSpec ==
        /\ WF_vars(\E out \in Outcomes, T \in TTLs \cup {0, 1} : FetchEnd(r, out, T))
        /\ WF_vars(CLock(r)) /\ WF_vars(HLock(r)) /\ WF_vars(SendBegin(r))
        /\ WF_vars(\E ok \in BOOLEAN : Save(r, ok)) /\ WF_vars(End(r))
-  /\ \A p \in Purgers : WF_vars(PurgeRemove(p)) /\ WF_vars(\E ok \in BOOLEAN : PurgeDelete(p, ok))
+  /\ \A p \in Purgers : WF_vars(PurgeRemove(p)) /\ WF_vars(PurgeFence(p)) /\ WF_vars(\E ok \in BOOLEAN : PurgeDelete(p, ok))
 
 -----------------------------------------------------------------------------
 (* the listed properties, over the observation state only *)
